@@ -66,8 +66,10 @@ def _run(ev, work, thorough):
     if thorough:
         h2, res2 = D.export_histories(work, frames="FramesSmall", maxops=3)
         ev.add_tlc("DatasetExport: history tree (FramesSmall, 3 operations)", res2, histories=len(h2))
-        h3, res3 = D.export_histories(work, frames="FramesTiny", maxops=4, partitioned="OnlyPartitioned")
-        ev.add_tlc("DatasetExport: history tree (FramesTiny, 4 operations, partitioned)", res3, histories=len(h3))
+        h3, res3 = D.export_histories(work, frames="FramesOne", maxops=4, ops="OpsMixed")
+        h3 = h3[::4]
+        ev.add_tlc("DatasetExport: history tree (two frames, 4 operations of append / write_row_groups / remove_row_groups, "
+                   "every 4th history)", res3, histories=len(h3))
         hists = hists + h2 + h3
     results = D.run_replays(hists, work)
     verd = Verdicts(PID, os.path.join(HOME, "replays"))
